@@ -415,10 +415,15 @@ def gen_C03(rng, tier):
                 h.push(last + 1, rng, pl=bytes(h.p - 1))
             else:
                 h.push(bad, rng)
+            # refusals in a row: a refused append must not make the next stale one acceptable
+            last = h.last()
+            for bad2 in (last, max(last - 1, 0), h.full if h.full is not None else 0, (last + (h.full or 0)) // 2):
+                h.push(bad2, rng)
             for a in ["files", "range", "len", "read_all s=U e=U"]:
                 h.op(a)
             if rng.random() < 0.4:
                 h.reopen()
+                h.push(h.last(), rng)
                 h.push(h.last(), rng)
                 h.op("files")
         out.append(("refuse", h.script()))
